@@ -115,6 +115,16 @@ c10("t7_state_vector_v1", "T7", "every byte string <= 10; path cut at the first 
 c10("t7_awareness_update_v1", "T7", "every byte string <= 6; path cut at the first insert",
     "AwarenessUpdate::decode_v1: reservation made from the count field", timeout=900)
 
+for n, b in [("id_range", "IdRange::decode (count 1, every payload, every prefix length)"),
+             ("sticky_relative", "StickyIndex::decode_v1, relative scope, every 10-byte payload"),
+             ("sticky_nested", "StickyIndex::decode_v1, nested scope, every 10-byte payload"),
+             ("sticky_root", "StickyIndex::decode_v1, root scope, every 4-byte payload"),
+             ("any_f32", "Any::decode f32"), ("any_f64", "Any::decode f64"), ("any_bigint", "Any::decode BigInt"),
+             ("block_gc", "Update::decode_block GC, every 5-byte payload"),
+             ("block_skip", "Update::decode_block Skip, every 5-byte payload")]:
+    c10("t8_%s_reencode" % n, "T8", b + "; then the real Encode impl against the recording Encoder",
+        "a successfully decoded value can be encoded again (no panic)")
+
 STUBS += [
     "C10 allocation-limit stubs: Vec::with_capacity, SmallVec::with_capacity, HashMap::with_capacity, "
     "HashMap::with_capacity_and_hasher assert requested <= input length (+1024 only for the constant of "
@@ -135,8 +145,10 @@ ASSUMPTIONS["C10"] = [
     "listed values; other values of that byte are covered only by the 'unknown' instances",
     "a fallible reservation (try_reserve) from an untrusted count is accepted; only infallible "
     "capacity requests are bounded by the input length",
-    "'a decoded value can be encoded again' is decided as encoder totality over the decoders' image in "
-    "the T8 family, not by decode-then-encode in one harness (CBMC blow-up, DESIGN 2.4)",
+    "'a decoded value can be encoded again' is decided by decode-then-encode against a recording Encoder (T8) "
+    "for delete-set ranges, sticky indexes, Any f32/f64/BigInt and GC/Skip blocks only; item blocks, Any "
+    "int/string/buffer and messages did not finish and rest on the image constraints the decoders' harnesses "
+    "assert (ranges ordered, sign flags consistent, client ids < 2^53)",
     "recursion depth of Any::decode is proportional to input length (known finding F10-e), the harnesses "
     "bound nesting by the unwind value",
     "merge_updates / diff_updates / Update::decode past one block / StateVector and AwarenessUpdate past "
